@@ -259,7 +259,14 @@ func runOutputCase(tw *TraceWriter, id int, p OutParams, variant int, scratch st
 	twinStatus, _ := invoke(twin, tw0, filepath.Join(dir, "twin.go"))
 	expected := tw0.buf.Bytes()
 	if p.Entry == "File.Save" {
-		expected, _ = os.ReadFile(filepath.Join(dir, "twin.go"))
+		// "the saved file contains exactly the rendered output": the reference is what Render writes for an identically
+		// built File, not what another Save leaves behind
+		var rb bytes.Buffer
+		if err := build(p.NoFormat).file.Render(&rb); err == nil {
+			expected = rb.Bytes()
+		} else {
+			expected, _ = os.ReadFile(filepath.Join(dir, "twin.go"))
+		}
 	}
 	// independent oracle: is the raw rendering formattable, and what is the formatted output?  (go/format on a NoFormat
 	// render; for fragments the NoFormat render of a File that holds only the fragment, minus the package clause)
@@ -270,7 +277,7 @@ func runOutputCase(tw *TraceWriter, id int, p OutParams, variant int, scratch st
 		rawTwin.file.Render(&rb)
 		fm, ok := Gofmt(rb.Bytes())
 		fmtok = ok
-		if ok && !p.NoFormat && p.Entry == "File.Render" {
+		if ok && !p.NoFormat && (p.Entry == "File.Render" || p.Entry == "File.Save") {
 			expected = fm
 		}
 	} else {
